@@ -92,7 +92,7 @@ static const char* const ha_name[HA_NB] = { "stream2", "legacy", "stable-in", "s
 #define HA_IS_LEVELONLY(a) ((a) >= HA_BUFFERLESS)
 
 /* stable-buffer contracts: stable-in = same src pointer, pos only moved by zstd, size may grow; stable-out = same buffer, (size - pos) never changed by the caller */
-static size_t h_run_stable(ZSTD_CCtx* c, int api, const uint8_t* src, size_t n, const hscript* S, uint8_t* dst, size_t dstCap, long* callBudgetExceeded)
+static size_t h_run_stable(ZSTD_CCtx* c, int api, const uint8_t* src, size_t n, const hscript* S, uint8_t* dst, size_t dstCap, long* callBudgetExceeded, hlog* L)
 {
     int const sIn = (api == HA_STABLE_IN || api == HA_STABLE_BOTH), sOut = (api == HA_STABLE_OUT || api == HA_STABLE_BOTH);
     ZSTD_inBuffer in = { src, 0, 0 }; ZSTD_outBuffer out = { dst, dstCap, 0 }; size_t inBase = 0, outPos = 0; long calls = 0; int oi = 0;
@@ -103,12 +103,16 @@ static size_t h_run_stable(ZSTD_CCtx* c, int api, const uint8_t* src, size_t n, 
         for (;;) {
             ZSTD_inBuffer* const ip = sIn ? &in : &lin; ZSTD_outBuffer lo; ZSTD_outBuffer* op = &out;
             if (!sOut) { size_t const room = S->outPat[oi++ % S->nOut]; lo.dst = dst + outPos; lo.size = room < dstCap - outPos ? room : dstCap - outPos; lo.pos = 0; op = &lo; if (lo.size == 0) return (size_t)-ZSTD_error_dstSize_tooSmall; }
+            size_t const inB = (sIn ? 0 : inBase) + ip->pos, outB = sOut ? out.pos : outPos; size_t const roomB = op->size - op->pos;
             size_t const ret = ZSTD_compressStream2(c, op, ip, (ZSTD_EndDirective)dir);
+            if (L) { hcall hc; hc.inBefore = inB; hc.inAfter = (sIn ? 0 : inBase) + ip->pos; hc.inSize = (sIn ? 0 : inBase) + ip->size; hc.outBefore = outB; hc.outAfter = sOut ? out.pos : outPos + lo.pos; hc.outSize = roomB; hc.ret = ret; hc.dir = dir; hl_push(L, hc); }
             if (ZSTD_isError(ret)) return ret;
             if (!sOut) outPos += lo.pos;
             if (++calls > maxCalls) { if (callBudgetExceeded) *callBudgetExceeded = calls; return (size_t)-ZSTD_error_GENERIC; }
             if (dir == ZSTD_e_continue) { if (ip->pos == ip->size) break; }
-            else if (ret == 0 && ip->pos == ip->size) break;
+            else if (ret == 0 && ip->pos == ip->size) {
+                if (dir == ZSTD_e_flush && L && L->nFlush < 256) { L->flushPoints[L->nFlush] = sOut ? out.pos : outPos; L->flushIn[L->nFlush] = (sIn ? 0 : inBase) + ip->pos; L->nFlush++; }
+                break; }
         }
         inBase += S->seg[s].len;
     }
